@@ -101,6 +101,6 @@ def jobs(prop, tier, only_fn=None):
                                    unwind_default=b.get("lib_unwind") or ((b["dmax"] if isinstance(b["dmax"], int) else N) + 2),
                                    unwind_rules=[(r"^mem(set|cpy)\.", (NN if wide else NN * W) + 2),
                                                  (r"^_(str|wcs)nlen_s_chk\.", NN + 2)],
-                                   memchecks=False, fn=name, bounds=bounds,
+                                   memchecks=(tag.startswith("guard")), fn=name, bounds=bounds,
                                    timeout=120 if tier == "quick" else 900))
     return out
